@@ -5,3 +5,11 @@ def geo(k, base, kmin=6, floor=6):
 # link flags + extra source for the allocation tracker (engine/alloc_track.cpp)
 WRAP_FLAGS = ["-Wl,--wrap=malloc,--wrap=calloc,--wrap=realloc,--wrap=aligned_alloc,--wrap=posix_memalign,--wrap=free"]
 WRAP_SRCS = ["engine/alloc_track.cpp"]
+
+
+def desc_fuzz(prop, fix=None, skip_subs=(), runs=150000, workers=16, flags=()):
+    """libFuzzer campaign over the property's own descriptors (fuzz/descriptor.cpp linked with props/cXX.cpp): quick replays the
+    committed coverage-minimised corpus, thorough runs `workers` campaigns of `runs` executions (worker 0 from an empty corpus)"""
+    return dict(target="fuzz/descriptor.cpp", with_prop=True, corpus="fuzz/corpus/desc_%s" % prop.lower(), fix=dict(fix or {}),
+                skip_subs=list(skip_subs), max_len=512, flags=list(flags),
+                quick=dict(mode="replay"), thorough=dict(mode="campaign", workers=workers, runs=runs))
